@@ -273,7 +273,10 @@ def run_seeds(props: list[str] | None = None, jobs: int = 16) -> dict:
         for d in sorted(os.listdir(root)):
             mp, pp = os.path.join(root, d, "meta.json"), os.path.join(root, d, "patch.diff")
             if os.path.exists(mp) and os.path.exists(pp):
-                prop = json.load(open(mp)).get("property")
+                meta = json.load(open(mp))
+                prop = meta.get("property")
+                if meta.get("superseded_by_fix"):
+                    continue   # the change no longer breaks the property on the repaired tree (its demonstration passes)
                 if props is None or prop in props:
                     todo.append((prop, d, pp))
     t0 = time.time()
